@@ -53,7 +53,7 @@ let () = iter_lines (fun line ->
         | TjOk (x1, _, w1, _) when iz w1 <> sw && iz x1 > 0 && smoothing_active (zi mode) (zi 0) ->
           iz (smooth_left_band mcuw_scaled (not fu))
         | _ -> 0 in
-      Printf.printf "tj sub=%d sf=%d/%d dims %d %d full=0 set=%s | haz %d over=0 band=%d\n" sub (iz num) (iz den) sw sh
+      Printf.printf "tj sub=%d sf=%d/%d dims %d %d full=0 set=%s | haz %d over=0 band=%d gok=1\n" sub (iz num) (iz den) sw sh
         (match r with TjErr -> "-1" | _ -> "0 dec=0") hz band
     end else begin
       let d = ints (List.nth fs 1) in
@@ -111,7 +111,9 @@ let () = iter_lines (fun line ->
           Buffer.add_string b " | prov";
           List.iter (fun p -> Buffer.add_string b (Printf.sprintf " %d" p)) (List.rev !provs);
           let hz = if !haz5 then 5 else if k.k_ctx then iz (first_hazard_c g (c_init g) ops) else iz (first_hazard g a_init ops) in
-          Buffer.add_string b (Printf.sprintf " | haz %d over=%d band=%d" hz (if overread g ops then 1 else 0) !band);
+          (* hypothesis of theorem C08_skip_read_equals_full_context_v2 on this frame's geometry *)
+          let gok = if k.k_ctx && iz k.k_vmax = 2 then (if ctx_v2_okb g then 1 else 0) else 1 in
+          Buffer.add_string b (Printf.sprintf " | haz %d over=%d band=%d gok=%d" hz (if overread g ops then 1 else 0) !band gok);
           print_endline (Buffer.contents b)
         end
     end
